@@ -8,6 +8,15 @@
 
   Model: `Irc.canSend`, `Irc.privmsgTarget`, `Irc.processPrivmsgNotice` (rest_cmds.rs
   `process_privmsg_notice`).  Helper lemmas: `Irc/Props/MsgLemmas.lean`.
+
+  Theorems (all for ALL contexts/worlds, no invariant needed):
+    `canSend_iff`                 the model's test = `Spec.maySpeak` (over `glob`, `Map.lookup`)
+    `rejected_nobody_receives`    not allowed to speak: queue/world untouched, 404 iff PRIVMSG
+    `delivered_only_if_maySpeak`  contrapositive
+    `notice_silent(_target)`      NOTICE never writes to the sender's buffer
+    `away_reply`, `notice_to_user`, `unknown_nick`, `unknown_channel`
+    `privmsg_answers`             whole command: the sender's buffer grows by exactly the
+                                  per-target answers (403 / 404 / 401 / 301 / nothing), in order
 -/
 import Irc.Props.MsgLemmas
 namespace Irc.C10
@@ -266,5 +275,77 @@ example : (getPrivmsgTargetType (str "nobody")).1.channel = false ∧
     Map.lookup (str "nobody") x.w.users = none ∧
     (getPrivmsgTargetType (str "#nope")).1.channel = true ∧
     Map.lookup (getPrivmsgTargetType (str "#nope")).2 x.w.channels = none := by decide
+
+/-! ## 5. the whole PRIVMSG command: what the sender is told, in total -/
+
+/-- `a` is the answer the sender of a PRIVMSG gets for `target` (written from the statement). -/
+def Spec.answers (cfg : Cfg) (w : World) (client nick source target : Str) (a : List Str) : Prop :=
+  if (getPrivmsgTargetType target).1.channel = true then
+    (Map.lookup (getPrivmsgTargetType target).2 w.channels = none ∧
+      a = [Spec.err403 cfg client (getPrivmsgTargetType target).2]) ∨
+    (∃ C, Map.lookup (getPrivmsgTargetType target).2 w.channels = some C ∧
+      ((Spec.maySpeak C nick source ∧ a = []) ∨
+       (¬ Spec.maySpeak C nick source ∧
+          a = [Spec.err404 cfg client (getPrivmsgTargetType target).2])))
+  else
+    (Map.lookup target w.users = none ∧ a = [Spec.err401 cfg client target]) ∨
+    (∃ u, Map.lookup target w.users = some u ∧
+      ((u.away = none ∧ a = []) ∨
+       (∃ txt, u.away = some txt ∧ a = [Spec.rpl301 cfg client target txt])))
+
+/-- For EVERY context: the sender's buffer grows by exactly the answers for the distinct
+    targets, in order - nothing else is ever written by PRIVMSG. -/
+theorem privmsg_answers (cfg : Cfg) (c : Nat) (targets : List Str) (text : Str) (x : Ctx)
+    {nick : Str} (hn : (x.conn c).nick = some nick) :
+    ∃ ans : Str → List Str,
+      (∀ t, Spec.answers cfg x.w (x.conn c).clientName nick (x.conn c).source t (ans t)) ∧
+      (processPrivmsgNotice cfg c targets text false x).direct =
+        x.direct ++ (dedup targets).flatMap ans := by
+  refine ⟨fun t => Msg.repliesOf cfg x.w (x.conn c).clientName nick (x.conn c).source t, ?_,
+    Msg.ppn_privmsg_direct cfg c text targets x hn⟩
+  intro t
+  unfold Spec.answers Msg.repliesOf
+  by_cases hc : (getPrivmsgTargetType t).1.channel = true
+  · simp only [hc, if_true]
+    cases hl : Map.lookup (getPrivmsgTargetType t).2 x.w.channels with
+    | none =>
+      left
+      simp [Spec.err403, ErrNoSuchChannel403, Msg.str_colon, Msg.str_sp403]
+    | some C =>
+      right
+      refine ⟨C, rfl, ?_⟩
+      by_cases hs : canSend C nick (x.conn c).source = true
+      · left; exact ⟨(canSend_iff _ _ _).mp hs, by simp [hs]⟩
+      · right
+        refine ⟨fun h => hs ((canSend_iff _ _ _).mpr h), ?_⟩
+        simp [hs, Spec.err404, ErrCannotSendToChain404, Msg.str_colon, Msg.str_sp404]
+  · have hc' : (getPrivmsgTargetType t).1.channel = false := by simpa using hc
+    simp only [hc', Bool.false_eq_true, if_false]
+    cases hl : Map.lookup t x.w.users with
+    | none =>
+      left
+      simp [Spec.err401, ErrNoSuchNick401, Msg.str_colon, Msg.str_sp401]
+    | some u =>
+      right
+      refine ⟨u, rfl, ?_⟩
+      cases ha : u.away with
+      | none => left; simp [ha]
+      | some a =>
+        right
+        exact ⟨a, rfl, by simp [ha, Spec.rpl301, RplAway301, Msg.str_colon, Msg.str_sp301]⟩
+
+open Msg.Demo in
+/-- hypothesis satisfiable; the conclusion on the demo world is the PRIVMSG example of section 3
+    (404, 403, 401, 301 in target order). -/
+example : (x.conn 3).nick = some (str "carol") := by decide
+
+/-- an unregistered connection (no nick; unreachable through `dispatch`) gets nothing -/
+theorem privmsg_no_nick (cfg : Cfg) (c : Nat) (targets : List Str) (text : Str) (notice : Bool)
+    (x : Ctx) (hn : (x.conn c).nick = none) :
+    (processPrivmsgNotice cfg c targets text notice x).direct = x.direct ∧
+    (processPrivmsgNotice cfg c targets text notice x).queued = x.queued := by
+  rw [Msg.processPrivmsgNotice_eq]
+  simp only [hn]
+  exact ⟨rfl, rfl⟩
 
 end Irc.C10
